@@ -7,14 +7,14 @@ def run(rep, tier):
     rep.assumptions.append("E2-restart: the fault is a SIGKILL of the real experiment process before the k-th line (all threads) of "
                            "scheduler/base.py, commandline.py, scriptbuilder.py, connectors/local.py; jobs are real processes waiting for a gate")
     (e2.VERIF / ".work").mkdir(exist_ok=True)
-    r0 = e2.one((0, False))
-    if r0.get("states") != ["DONE", "DONE", "DONE"] or any(v != [1, 1] for v in r0["bodies"].values()):
+    r0 = e2.one((-1, False))
+    if r0.get("states") != ["DONE", "DONE", "DONE"] or any(v != [1, 1] for v in r0["bodies"].values()) or r0.get("outputs") != ["x1", "x2", "x3"]:
         rep.violation("C11/restart/baseline", f"the experiment does not even run without a fault: {r0}", {"restart": r0})
         return
     n = r0["count"]
     step = 37 if tier == "quick" else 3
     s0 = seed() % step
-    ks = [(k, (k // step) % 2 == 1) for k in range(1 + s0, n + 2, step)]
+    ks = [(k, [False, True, "stopped"][(k // step) % 3]) for k in range(1 + s0, n + 2, step)]
     out = e2.run(ks)
     killed = 0
     for r in out:
@@ -30,6 +30,13 @@ def run(rep, tier):
             bad = True
         if r.get("states") != ["DONE", "DONE", "DONE"]:
             rep.violation(f"C11/restart/final-states/{r.get('states')}", f"{what}: running the experiment again ends with {r.get('states')} instead of three successes", {"restart": r})
+            bad = True
+        lost = sorted((set(r.get("adoptable", [])) - set(r.get("outputs", []))) | (set(r.get("adoptable", [])) & set(r.get("launched_again", []))))
+        if r.get("states") == ["DONE", "DONE", "DONE"] and lost and r.get("late_gates"):
+            # (a job whose pid file was never written -- death inside the launch block -- cannot be adopted: it is launched
+            # again, waits for the run lock and finds the success marker; only jobs that could be adopted are looked at)
+            rep.violation("C11/restart/running-job-launched-again", f"{what}: the jobs {lost} were running with their pid file written when the experiment started "
+                          "again; they were launched again instead of being adopted (their script ran a second time and found the success marker, or their standard output is gone)", {"restart": r})
             bad = True
         for j, (b, e) in r["bodies"].items():
             if (b, e) != (1, 1):
